@@ -4,7 +4,7 @@
     examples.
 
     PARTIAL: the theorems cover the CORE sub-grammar of [Doc/DocGrammar.v]
-    (stages (a)-(c) of the plan and the comments of stage (d)), for ALL documents of that grammar
+    (stages (a)-(d) of the plan), for ALL documents of that grammar
     (unbounded depth and size) and ALL contexts:
 
       item ::= Text ws cs          whitespace, then a non-empty run of inert characters
@@ -19,9 +19,14 @@
 
              | Cmt ws text post    ws % text post   (text without newline; post = the newline and the
                                    whitespace after it)
+             | Par ws mid          ws newline mid newline   (a whitespace run with two or more
+                                   newlines that ends with its last newline, in a context that has
+                                   the [\n\n] specials without arguments; [ws] without newline)
     with [ws], [tr], [post] whitespace runs containing at most one newline
     (never a paragraph break).  NOT covered (rest of stage (d), stage (e)):
-    paragraph breaks, a comment ending at the end of input, optional star / bracket arguments, single-token
+    a paragraph break followed by indentation or directly after a control word /
+    comment, paragraph-break whitespace in a context without the [\n\n] specials,
+    a comment ending at the end of input, optional star / bracket arguments, single-token
     arguments, whitespace before an argument, environments, specials,
     [$$ … $$], verbatim.
 
@@ -92,7 +97,7 @@ Print Assumptions C02_tree_whitespace_irrelevant_partial.
 (** ** Non-vacuity *)
 Open Scope N_scope.
 
-(** [ab {c %x{$\n \textbf{x $y$} }\alpha z\(q\)\n\frac{1}{ } ] — nested groups, a comment, a
+(** [ab {c %x{$\n \textbf{x $y$} }\alpha z\n\n\(q\)\n\frac{1}{ } ] — nested groups, a comment, a paragraph break, a
     one-argument macro whose argument contains inline math, a zero-argument
     control word with post-space, [\( \)], a two-argument macro, trailing
     whitespace — under the generated default context *)
@@ -105,6 +110,7 @@ Definition c02_doc : doc :=
                       [Grp [] [Text [] [120]; Math [32] MDollar [Text [] [121]] []] []]] [32];
         Mac [] [97;108;112;104;97] [32] [];
         Text [] [122];
+        Par [] [];
         Math [] MParen [Text [] [113]] [];
         Mac [10] [102;114;97;99] [] [Grp [] [Text [] [49]] []; Grp [] [] [32]]];
      d_trail := [32] |}.
@@ -112,13 +118,13 @@ Definition c02_doc : doc :=
 Example C02_parse_unparse_nonvacuous :
   ok_doc default_ctx c02_doc = true /\
   unparse c02_doc = [97;98;32;123;99;32;37;120;123;36;10;32;92;116;101;120;116;98;102;123;120;32;36;121;36;125;32;125;
-                     92;97;108;112;104;97;32;122;92;40;113;92;41;10;92;102;114;97;99;123;49;125;123;32;125;32] /\
+                     92;97;108;112;104;97;32;122;10;10;92;40;113;92;41;10;92;102;114;97;99;123;49;125;123;32;125;32] /\
   (* the theorem's conclusion, checked independently by evaluation *)
   parse_top (unparse c02_doc) false default_ctx (walker_state default_ctx)
   = Ok (ONode (Some (gen_nodelist 0 (fst (tree_of default_ctx (walker_state default_ctx) 0 c02_doc)))))
        (length (unparse c02_doc)) /\
-  (* and it is a non-trivial tree: eight top-level nodes, 54 characters *)
-  length (fst (tree_of default_ctx (walker_state default_ctx) 0 c02_doc)) = 8%nat.
+  (* and it is a non-trivial tree: nine top-level nodes, 56 characters *)
+  length (fst (tree_of default_ctx (walker_state default_ctx) 0 c02_doc)) = 9%nat.
 Proof. vm_compute. repeat split. Qed.
 
 (** the side conditions are not vacuous: a document violating one really
@@ -138,7 +144,7 @@ Example C02_side_conditions_needed :
   (ok_doc default_ctx bad3 = false /\ differs bad3 = true).
 Proof. vm_compute. repeat split. Qed.
 
-(** a whitespace variant of [c02_doc]: [ab  {c\t%x{$\n\textbf{x\t$y$}\n}\alpha\nz\(q\) \frac{1}{  }\n] *)
+(** a whitespace variant of [c02_doc]: [ab  {c\t%x{$\n\textbf{x\t$y$}\n}\alpha\nz\n \n\t\n\(q\) \frac{1}{  }\n] *)
 Definition c02_doc' : doc :=
   {| d_items :=
        [Text [] [97;98];
@@ -148,6 +154,7 @@ Definition c02_doc' : doc :=
                       [Grp [] [Text [] [120]; Math [9] MDollar [Text [] [121]] []] []]] [10];
         Mac [] [97;108;112;104;97] [10] [];
         Text [] [122];
+        Par [] [32;10;9];
         Math [] MParen [Text [] [113]] [];
         Mac [32] [102;114;97;99] [] [Grp [] [Text [] [49]] []; Grp [] [] [32;32]]];
      d_trail := [10] |}.
